@@ -80,7 +80,7 @@ Definition c01_case (i r : sexp) : verdict :=
                   let compared := List.length (filter (fun x => snd x) res) in
                   match find (fun x => match fst x with Some _ => true | None => false end) res with
                   | Some (Some why, _) =>
-                      (* former finding call-to-main-e2e (repaired in /repo by <commitmain>; no known_findings entry matches it
+                      (* former finding call-to-main-e2e (repaired in /repo by f929eb7; no known_findings entry matches it
                          any more: a plain violation, the tag only describes it) *)
                       if calls_main_prog p then VViol ("class=call-to-main-e2e " ++ name ++ " " ++ why)
                       else if negb (args_effect_free p) then VSkip ("mismatch in a program whose effects are not sequenced (argument evaluation order unspecified): " ++ name)
